@@ -556,12 +556,14 @@ class simplify_chained_calls(FuncADLNodeTransformer):
         "Do the lookup for the dict. Returns None if the dict literal does not define the key."
         if not all(isinstance(k, ast.Constant) for k in v.keys):
             return None
+        # A key that is given several times keeps its last value, as in python.
+        found = None
         for index, value in enumerate(v.keys):
             assert isinstance(value, ast.Constant)
             if type(value.value) is type(s) and value.value == s:
-                return copy.deepcopy(v.values[index])
+                found = v.values[index]
 
-        return None
+        return copy.deepcopy(found) if found is not None else None
 
     def visit_Subscript_Of_First(self, first: ast.expr, s):
         """
